@@ -3,6 +3,8 @@
 # Confirms a seeded change in a scratch worktree (compiles, suite passes, demo fails with / passes without),
 # then applies it to /repo, runs the named checks, and undoes it.
 export GOFLAGS=-mod=mod GOPROXY=off GOSUMDB=off GOTOOLCHAIN=local
+# a build cache of its own: trimming it must not pull files away from under other jobs (sub-agents building in /tmp)
+export GOCACHE=${GOCACHE:-$HOME/.cache/go-build-verif}
 # every changed tree adds ~0.5-1 GB of build cache: keep it bounded (the disk filled up once)
 [ "$(du -sm ${GOCACHE:-$HOME/.cache/go-build} 2>/dev/null | cut -f1)" -gt 30000 ] 2>/dev/null && go clean -cache
 prop=$1; d=$(realpath $2); shift 2; extra="$@"
